@@ -98,7 +98,7 @@ PP_SIZES = {"quick": [10, 16, 28, 40, 100, 500, 2000], "thorough": [10, 13, 16, 
 PP_CPU_LIMIT = 2.0
 # OPEN DEFECT fixes/C03-onlyinclude-unclosed-quadratic.diff: k unclosed <onlyinclude> openers in a template cost k scans to the
 # end of the text (findall), 6 s CPU for 8000 of them (104 KB); invisible up to k = 2000.  VERIF_C03_PP_BIG=1 adds k = 8000.
-PP_BIG = os.environ.get("VERIF_C03_PP_BIG", "0") == "1"
+PP_BIG = os.environ.get("VERIF_C03_PP_BIG", "1") == "1"
 PP_RANK1 = 16          # runs longer than this are only tried once the shorter ones of the same shape have passed
 PP_RANK2 = 28
 
@@ -114,7 +114,7 @@ NEST_PROBE = "{{lc:Z}}"
 # OPEN DEFECT fixes/C03-ifexist-empty-title-named-lookup.diff: {{#ifexist:|a|3}} returns args.get(args[2]) - the NAMED argument
 # "3", i.e. the third argument again - so {{#ifexist:||{{#ifexist:||..3..}}}} costs 2**depth.  Until the fix is in /repo the
 # leaf "own position number" is not generated for #ifexist (VERIF_C03_IFEXIST_EMPTY=1 generates it).
-IFEXIST_EMPTY = os.environ.get("VERIF_C03_IFEXIST_EMPTY", "0") == "1"
+IFEXIST_EMPTY = os.environ.get("VERIF_C03_IFEXIST_EMPTY", "1") == "1"
 
 _CALL_OPEN = re.compile(r"(?<!\{)\{\{(?!\{)")       # the opening braces of a call (not of a {{{parameter}}})
 
